@@ -12,10 +12,17 @@ impl VM {
     }
 
     pub fn value_to_string(&self, value: Value) -> String {
+        self.value_to_string_in(value, &mut Vec::new())
+    }
+
+    /// `enclosing` holds the containers currently being printed: a container that contains
+    /// itself (`v.push(v)`) is shown as `[...]` where it recurs, and containers nested deeper
+    /// than MAX_PRINT_DEPTH as `[...]` too, instead of recursing without end.
+    fn value_to_string_in(&self, value: Value, enclosing: &mut Vec<usize>) -> String {
         if let Some(ptr) = value.as_ptr()
             && let Some(obj) = self.heap.get(GcRef::new(ptr))
         {
-            return object_to_string(self, &obj.kind, value);
+            return object_to_string(self, &obj.kind, ptr, enclosing);
         }
         value.to_string()
     }
@@ -169,7 +176,9 @@ fn object_type_name(kind: &ObjectKind) -> &'static str {
     }
 }
 
-fn object_to_string(vm: &VM, kind: &ObjectKind, _fallback: Value) -> String {
+const MAX_PRINT_DEPTH: usize = 64;
+
+fn object_to_string(vm: &VM, kind: &ObjectKind, ptr: usize, enclosing: &mut Vec<usize>) -> String {
     match kind {
         ObjectKind::String(s) => s.as_str().to_string(),
         ObjectKind::Function(f) => format!("<function {}>", f.name().unwrap_or("<anonymous>")),
@@ -182,7 +191,13 @@ fn object_to_string(vm: &VM, kind: &ObjectKind, _fallback: Value) -> String {
                 format!("<upvalue open @{}:{}>", frame_base, register)
             }
             UpvalueLocation::Closed(val) => {
-                format!("<upvalue closed {}>", vm.value_to_string(*val))
+                if enclosing.contains(&ptr) || enclosing.len() >= MAX_PRINT_DEPTH {
+                    return "<upvalue closed ...>".to_string();
+                }
+                enclosing.push(ptr);
+                let inner = vm.value_to_string_in(*val, enclosing);
+                enclosing.pop();
+                format!("<upvalue closed {}>", inner)
             }
         },
         ObjectKind::Closure(c) => {
@@ -194,15 +209,25 @@ fn object_to_string(vm: &VM, kind: &ObjectKind, _fallback: Value) -> String {
             "<closure>".to_string()
         }
         ObjectKind::Array(arr) => {
+            if enclosing.contains(&ptr) || enclosing.len() >= MAX_PRINT_DEPTH {
+                return "[...]".to_string();
+            }
+            enclosing.push(ptr);
             let elements: Vec<String> = (0..arr.len())
-                .filter_map(|i| arr.get(i).map(|v| vm.value_to_string(v)))
+                .filter_map(|i| arr.get(i).map(|v| vm.value_to_string_in(v, enclosing)))
                 .collect();
+            enclosing.pop();
             format!("[{}]", elements.join(", "))
         }
         ObjectKind::Vec(vec) => {
+            if enclosing.contains(&ptr) || enclosing.len() >= MAX_PRINT_DEPTH {
+                return "Vec[...]".to_string();
+            }
+            enclosing.push(ptr);
             let elements: Vec<String> = (0..vec.len())
-                .filter_map(|i| vec.get(i).map(|v| vm.value_to_string(v)))
+                .filter_map(|i| vec.get(i).map(|v| vm.value_to_string_in(v, enclosing)))
                 .collect();
+            enclosing.pop();
             format!("Vec[{}]", elements.join(", "))
         }
     }
